@@ -93,3 +93,30 @@ class Observer:
         if self.mode == "end":
             return False
         return self.ch.flag(1, 3)
+
+
+class Keeper:
+    """Results a caller holds on to.  An array handed out by an earlier call belongs to the caller: later calls on the
+    same object must not change it (a reused internal result buffer makes every value right at the moment it is returned
+    and wrong one call later).  ``keep(obj)`` remembers the returned object itself plus a snapshot; ``verify(where)``
+    compares them and raises the violation built by ``make``."""
+
+    def __init__(self, make, limit: int = 3):
+        self.items: list = []
+        self.make = make
+        self.limit = limit
+
+    def keep(self, obj, label: str) -> None:
+        import numpy as np
+
+        if isinstance(obj, np.ndarray):
+            self.items.append((obj, obj.copy(), label))
+            if len(self.items) > self.limit:
+                self.items.pop(0)
+
+    def verify(self, where: str) -> None:
+        import numpy as np
+
+        for obj, snap, label in self.items:
+            if obj.shape != snap.shape or not np.array_equal(obj, snap, equal_nan=True):
+                raise self.make(label, where)
